@@ -167,6 +167,9 @@ def run_t2_t3(repo: Repo, res: Result, inl: Inliner | None, sem: dict) -> None:
         helper = repo.lookup_method(plain_detector_class(repo), b.method) if b is not None and b.method else None
         prefix = f"{helper.relpath}::{helper.qualname}" if helper is not None else f"{grv.relpath}::{grv.qualname}"
         ok = (mode, gran) in (("absent", "per-key"), ("present", "per-pair"))
+        if mode is None:
+            _add(res, "C01.T2", f"{prefix}::granularity of {f}", False, f"{f} is never filled at any legal (verb, except) point: violations of one rule shape can never be reported", where(helper, helper.node) if helper is not None else where(grv, grv.node), "structural", und)
+            continue
         _add(
             res, "C01.T2", f"{prefix}::granularity of {f}", ok,
             f"{f}: {mode} mode judged {gran}" + ("" if ok else (": requirements of a module rule must be judged per subject/object pair resp. per subject, not jointly" if mode == "absent" else ": realised pairs are filtered before being reported") + (f" [{detail}]" if detail else "")),
@@ -198,8 +201,15 @@ def search_direction(repo: Repo, fi: FuncInfo) -> str | None:
         for n in ast.walk(f.node):
             if isinstance(n, ast.Attribute) and n.attr in (SUCC, PRED):
                 attrs.add(n.attr)
-            if isinstance(n, ast.Call) and isinstance(n.func, ast.Name) and n.func.id in mod.functions:
-                work.append(mod.functions[n.func.id])
+            if isinstance(n, ast.Call) and isinstance(n.func, ast.Name):
+                if n.func.id in mod.functions:
+                    work.append(mod.functions[n.func.id])
+                else:  # a search helper imported from another module
+                    fq = repo.resolve_name(f.module, n.func)
+                    m2, _, attr = (fq or "").rpartition(".")
+                    om = repo.modules.get(m2)
+                    if om is not None and attr in om.functions:
+                        work.append(om.functions[attr])
     if PRED in attrs:
         return "pred"
     if SUCC in attrs:
